@@ -41,6 +41,10 @@ if rc != 0:
     sys.exit(rc)
 data = open(real, "rb").read()
 half = len(data) // 2
+try:
+    os.unlink(target)                   # like ld: the output is removed and created afresh, never rewritten in place
+except OSError:
+    pass
 with open(target, "wb") as f:
     f.write(data[:half]); f.flush(); os.fsync(f.fileno())
     at(1)                               # first half written
@@ -70,6 +74,80 @@ print(json.dumps([float(x) for x in call_kernel(k, dict(a=3.0, b=0.25, scale=1.0
 '''
 EXPECT = [0.55, 0.85, 1.45]
 
+# A long-lived parent (a GUI, a fit server) that has already loaded SOME compiled model - so sasmodels.kerneldll is
+# imported - and then forks one worker per request; the workers load the not-yet-compiled probe model.
+FORKSERVER = r'''
+import json, os, sys, time
+import numpy as np
+ctrl = os.environ["FAKECC_CTRL"]
+os.environ["FAKECC_TAG"] = "pre"
+from sasmodels.core import load_model
+from sasmodels.direct_model import call_kernel
+load_model(sys.argv[2], dtype="double", platform="dll")
+open(os.path.join(ctrl, "server.ready"), "w").write("ok")
+kids, seen = {}, set()
+while True:
+    for fn in sorted(os.listdir(ctrl)):
+        if fn.startswith("fork.") and fn not in seen:
+            seen.add(fn)
+            tag = fn[5:]
+            pid = os.fork()
+            if pid == 0:
+                os.setsid()
+                os.environ["FAKECC_TAG"] = tag
+                rc, out, err = 0, "", ""
+                try:
+                    m = load_model(sys.argv[1], dtype="double", platform="dll")
+                    k = m.make_kernel([np.array([0.1, 0.2, 0.4])])
+                    out = json.dumps([float(x) for x in call_kernel(k, dict(a=3.0, b=0.25, scale=1.0, background=0.0))])
+                except BaseException as exc:
+                    rc, err = 1, repr(exc)
+                with open(os.path.join(ctrl, tag + ".out"), "w") as f:
+                    json.dump(dict(out=out, err=err), f)
+                os._exit(rc)
+            kids[pid] = tag
+            open(os.path.join(ctrl, tag + ".pid"), "w").write(str(pid))
+    for pid in list(kids):
+        r, st = os.waitpid(pid, os.WNOHANG)
+        if r:
+            rc = -os.WTERMSIG(st) if os.WIFSIGNALED(st) else os.WEXITSTATUS(st)
+            open(os.path.join(ctrl, kids[pid] + ".exit"), "w").write(str(rc))
+            del kids[pid]
+    if os.path.exists(os.path.join(ctrl, "server.quit")) and not kids:
+        break
+    time.sleep(0.003)
+'''
+PRE_MODEL = MODEL.replace('verif_c18', 'verif_c18_pre').replace('a*q + b', 'a*q - b')
+
+
+class ForkedChild:
+    """The part of the Popen interface the driver uses, for a worker forked by the server."""
+    def __init__(self, ctrl, tag, pid):
+        self.ctrl, self.tag, self.pid, self.returncode = ctrl, tag, pid, None
+
+    def poll(self):
+        if self.returncode is None:
+            path = os.path.join(self.ctrl, self.tag + ".exit")
+            if os.path.exists(path):
+                txt = open(path).read().strip()
+                if txt:
+                    self.returncode = int(txt)
+        return self.returncode
+
+    def wait(self, timeout=60):
+        t0 = time.time()
+        while self.poll() is None and time.time() - t0 < timeout:
+            time.sleep(0.003)
+        return self.returncode
+
+    def communicate(self):
+        self.wait()
+        try:
+            d = json.load(open(os.path.join(self.ctrl, self.tag + ".out")))
+        except Exception:  # noqa
+            d = dict(out="", err="(worker died without a result)")
+        return d["out"], d["err"]
+
 
 class Proc:
     def __init__(self, tag):
@@ -81,7 +159,9 @@ class Proc:
 
 
 class World:
-    def __init__(self, root, idx):
+    def __init__(self, root, idx, fork=False):
+        self.fork = fork
+        self.server = None
         self.dir = os.path.join(root, "w%d" % idx)
         self.cache = os.path.join(self.dir, "cache")
         self.ctrl = os.path.join(self.dir, "ctrl")
@@ -106,7 +186,36 @@ class World:
             e.pop("CC", None)
         return e
 
+    def start_server(self):
+        pre = os.path.join(self.dir, "verif_c18_pre.py")
+        open(pre, "w").write(PRE_MODEL)
+        spath = os.path.join(self.dir, "forkserver.py")
+        open(spath, "w").write(FORKSERVER)
+        for k in (0, 1, 2):       # the parent's own build runs straight through
+            open(os.path.join(self.ctrl, "pre.go.%d" % k), "w").write("go")
+        self.server = subprocess.Popen([common.PY, spath, self.model_path, pre], env=self.env("pre", True),
+                                       stdout=subprocess.PIPE, stderr=subprocess.PIPE, text=True, start_new_session=True, cwd=self.dir)
+        t0 = time.time()
+        while not os.path.exists(os.path.join(self.ctrl, "server.ready")):
+            if self.server.poll() is not None or time.time() - t0 > 120:
+                raise RuntimeError("fork server did not start: %s" % (self.server.stderr.read()[-500:] if self.server.poll() is not None else "timeout"))
+            time.sleep(0.01)
+
     def launch(self, tag, scripted=True):
+        if self.fork and scripted:
+            if self.server is None:
+                self.start_server()
+            p = Proc(tag)
+            open(os.path.join(self.ctrl, "fork." + tag), "w").write("go")
+            pidf = os.path.join(self.ctrl, tag + ".pid")
+            t0 = time.time()
+            while not (os.path.exists(pidf) and open(pidf).read().strip()):
+                if time.time() - t0 > 60:
+                    raise RuntimeError("fork server did not fork %s" % tag)
+                time.sleep(0.003)
+            p.popen = ForkedChild(self.ctrl, tag, int(open(pidf).read()))
+            self.procs[tag] = p
+            return p
         p = Proc(tag)
         p.popen = subprocess.Popen([common.PY, self.worker, self.model_path], env=self.env(tag, scripted),
                                    stdout=subprocess.PIPE, stderr=subprocess.PIPE, text=True,
@@ -191,6 +300,12 @@ class World:
                 except Exception:  # noqa
                     pass
                 p.popen.wait()
+        if self.server is not None and self.server.poll() is None:
+            open(os.path.join(self.ctrl, "server.quit"), "w").write("q")
+            try:
+                self.server.wait(timeout=5)
+            except Exception:  # noqa
+                os.killpg(self.server.pid, signal.SIGKILL); self.server.wait()
 
 
 def final_name(model_path):
@@ -203,9 +318,9 @@ def final_name(model_path):
     return os.path.basename(kerneldll.dll_path(info.id + "_" + generate.tag_source(source), np.dtype("d")))
 
 
-def run_schedule(root, idx, sched, nproc, kill_kind="sigkill"):
+def run_schedule(root, idx, sched, nproc, kill_kind="sigkill", fork=False):
     """Execute one schedule with real processes.  Returns observation dict."""
-    w = World(root, idx)
+    w = World(root, idx, fork=fork)
     fname = final_name(w.model_path)
     model_sched = []      # the same history in the model's finer steps
     trace = []            # observed state of the final name after each model step
@@ -266,7 +381,7 @@ def run_schedule(root, idx, sched, nproc, kill_kind="sigkill"):
         results = {t: p.result for t, p in w.procs.items() if p.result is not None}
         return dict(sched=list(sched), model_sched=model_sched, trace=trace, loaded=obs_loaded, killed=killed, kill_kind=kill_kind, aborted=aborted,
                     after_kill=after_kill, recover_ok=bool(r.result and r.result["ok"]), recover=r.result,
-                    listing=listing, compiler_outputs=outputs, final_name=fname, results=results)
+                    listing=listing, compiler_outputs=outputs, final_name=fname, results=results, forked_workers=fork)
     finally:
         w.kill_all()
         shutil.rmtree(w.dir, ignore_errors=True)
@@ -324,17 +439,26 @@ def main(run):
             extra.append((tuple(s_[:rng.randint(2, max(2, len(s_) - 1))]), n_, rng.choice(["compiler", "sigint"])))
     for s_, n_, k_ in extra:
         scheds.append((s_, n_)); kinds.append(k_)
+    # the same protocol with workers FORKED from one parent that has already loaded another compiled model
+    # (module-level state of kerneldll is then shared by the builders)
+    forked = [((1, 2, 1, 2, 1, 1, 2, 2), 2), ((1, 2, 2, 1, 2, 2, 1, 1), 2), ((1, 1, 2, 2, 1), 2)]
+    if thorough:
+        forked += [(s_, 2) for s_ in rng.sample(two, 12)]
+    nfork0 = len(scheds)
+    for s_, n_ in forked:
+        scheds.append((s_, n_)); kinds.append("sigkill")
     # run several worlds in parallel threads (each world has its own processes)
     from concurrent.futures import ThreadPoolExecutor
     with ThreadPoolExecutor(max_workers=6) as ex:
-        futs = [ex.submit(run_schedule, root, i, s, n, kinds[i]) for i, (s, n) in enumerate(scheds)]
+        futs = [ex.submit(run_schedule, root, i, s, n, kinds[i], i >= nfork0) for i, (s, n) in enumerate(scheds)]
         for f in futs:
             obs.append(f.result())
     stats = dict(schedules=len(obs), processes=sum(len(set(o["sched"])) for o in obs), kills=sum(len(o["killed"]) for o in obs),
                  kill_stages={}, lookup_hits=0)
     distinct = set()
     for o in obs:
-        distinct.add((tuple(o["sched"]), o["kill_kind"]))
+        distinct.add((tuple(o["sched"]), o["kill_kind"], o["forked_workers"]))
+        stats["forked_worker_schedules"] = stats.get("forked_worker_schedules", 0) + int(o["forked_workers"])
         desc = dict(o)
         # model-free oracle: the property itself
         if 1 in o["trace"] or o["after_kill"] == 1:
